@@ -323,8 +323,14 @@ def _side(f):
 
 
 def sqrt(a):
-    if isinstance(a, (Cx, complex)):
-        raise Unsupported('complex sqrt')
+    if isinstance(a, complex):
+        a = Cx(Fraction(repr(a.real)), Fraction(repr(a.imag)))
+    if isinstance(a, Cx):
+        # principal complex square root s = p + i q:  s*s == a,  p >= 0  (and q >= 0 when p == 0)
+        x, y = zreal(a.re), zreal(a.im)
+        p_, q_ = Ghost.fn('csqrt_re', 2)(x, y), Ghost.fn('csqrt_im', 2)(x, y)
+        _side(z3.And(p_ * p_ - q_ * q_ == x, 2 * p_ * q_ == y, p_ >= 0, z3.Implies(p_ == 0, q_ >= 0)))
+        return Cx(p_, q_)
     if not is_sym(a):
         a = exact(a)
         if a < 0:
